@@ -258,6 +258,9 @@ def main(argv=None):
       trusted_base=sorted(trusted) + TRUSTED_ALWAYS,
       functions_under_contract=fn_rows, unproved=unproved,
       solver_time_s=round(solver_time, 2),
+      slow_obligations=sorted([dict(obligation=f"{r['cid']}::{o['oid']}", seconds=o['time'], queries=o['queries'],
+                                    solvers=o['solvers']) for r in pyvc_results for o in r['obligations']
+                               if o['time'] > 1.0], key=lambda d: -d['seconds'])[:20],
       back_ends=['z3 5.1 (python API)', 'cvc5 1.0.3 (second opinion on unknown)'],
       deductive_status=('all obligations discharged' if proved_all else
                         'not re-established: see unproved' if pyvc_results else 'no deductive part'),
